@@ -233,7 +233,20 @@ fn install_fail_part(res: &mut PartResult) {
     res.transitions = 2;
     res.states = 1;
     res.distinct_outcomes = 1;
-    match RecoverableRecorder::new(Dbl { magic: 0x5eed, st: st.clone() }).install() {
+    // install() must return: run it on a helper thread and give it 30 s (it takes microseconds)
+    let (tx, rx) = std::sync::mpsc::channel();
+    let st_t = st.clone();
+    std::thread::spawn(move || {
+        let _ = tx.send(RecoverableRecorder::new(Dbl { magic: 0x5eed, st: st_t }).install());
+    });
+    let outcome = match rx.recv_timeout(std::time::Duration::from_secs(30)) {
+        Ok(o) => o,
+        Err(_) => {
+            res.violation("failed-install-does-not-return", "install() on top of an existing global recorder did not return within 30 s: the recorder is never handed back".into(), json!({}));
+            return;
+        }
+    };
+    match outcome {
         Ok(_) => res.violation("install-succeeded-twice", "install() succeeded although a global recorder was already installed".into(), json!({})),
         Err(e) => {
             let r = e.into_inner();
@@ -282,7 +295,19 @@ fn install_ok_part(res: &mut PartResult, recover: bool) {
     }
     // a second install on top of it fails and hands its recorder back
     let st2 = Arc::new(Stats::default());
-    match RecoverableRecorder::new(Dbl { magic: 0x5eed, st: st2.clone() }).install() {
+    let (tx2, rx2) = std::sync::mpsc::channel();
+    let st2_t = st2.clone();
+    std::thread::spawn(move || {
+        let _ = tx2.send(RecoverableRecorder::new(Dbl { magic: 0x5eed, st: st2_t }).install());
+    });
+    let second = match rx2.recv_timeout(std::time::Duration::from_secs(30)) {
+        Ok(o) => o,
+        Err(_) => {
+            res.violation("failed-install-does-not-return", "a second install() did not return within 30 s: the recorder is never handed back".into(), json!({}));
+            return;
+        }
+    };
+    match second {
         Ok(_) => res.violation("install-succeeded-twice", "a second install() succeeded".into(), json!({})),
         Err(e) => {
             let r = e.into_inner();
